@@ -1,19 +1,22 @@
 (* Model of dclab's basin resolution (executable definitions only).
 
-   Follows (tree with the fixes 28899f0 "basin without identifier" and
-   960b418 "local basin format from network datasets"),
+   Follows (tree with the fixes 28899f0 "basin without identifier",
+   960b418 "local basin format from network datasets" and 7dc3f69 "key-less
+   basin definitions get a key"),
      core.py     RTDCBase.basins_retrieve / features_basin / __contains__ /
                  __getitem__ / _get_basin_feature_data / ignore_basins
      feat_basin.py  Basin.ds / features / verify_basin / get_feature_data,
                  basin_priority_sorted_key, InternalH5DatasetBasin
      fmt_hdf5/base.py  _local_basins_allowed, basins_get_dicts
-     fmt_hdf5/basin.py, fmt_http.py, fmt_s3.py, fmt_dcor/basin.py
+     fmt_hdf5/basin.py, fmt_http.py, fmt_s3.py, fmt_dcor/{base,basin}.py
                  (basin_type / basin_format of the classes, availability)
 
-   A world is a list of files; file number i is reachable by its local path
-   and by its URL on the server.  Availability of a location is an oracle
-   fixed by the world: [Here i] exists iff i < length world, [Rel i] exists
-   only relative to the referrer's directory, [Nowhere] never.
+   A world is a list of resources: .rtdc files (reachable by local path, by
+   URL and as S3 object) and DCOR resources (answered by the DCOR API only;
+   no events of their own).  Availability of a location is an oracle fixed by
+   the world: [Here i] exists iff resource i exists and is of the kind the
+   basin class asks for, [Rel i] only relative to the referrer's directory,
+   [Nowhere] never.
 
    The lazily built, cached structure of Basin objects that the code creates
    is represented by the (finite) tree of everything that can be opened from
@@ -54,7 +57,14 @@ Record file := mkFile {
   f_rid : rid;
   f_innate : list Z;             (* features in /events *)
   f_internal : list Z;           (* features in /basin_events *)
-  f_basins : list basin }.       (* in the order h5py iterates /basins *)
+  f_basins : list basin;         (* in the order h5py iterates /basins (or
+                                    of the DCOR API's answer) *)
+  f_dcor : bool }.               (* a DCOR resource: served by the DCOR API
+                                    only, not as a file / object *)
+
+(* an ordinary .rtdc file *)
+Definition mkF (r : rid) (innate internal : list Z) (bs : list basin) : file :=
+  mkFile r innate internal bs false.
 
 Definition world := list file.
 
@@ -143,21 +153,27 @@ Definition sort_basins (l : list basin) : list basin :=
   fold_right insert_b [] l.
 
 (* ---------------------------------------------------------- locations *)
-Definition exists_file (w : world) (i : nat) : bool :=
-  Nat.ltb i (length w).
+(* the resource is there for this basin class: DCOR resources answer the
+   DCOR API only, files only paths / URLs / object names *)
+Definition exists_file (w : world) (c : bclass) (i : nat) : bool :=
+  match nth_error w i with
+  | None => false
+  | Some f => Bool.eqb (f_dcor f)
+                       (match c with CDcor => true | _ => false end)
+  end.
 
 (* the location taken as it is written (absolute path, URL, or a relative
    path resolved against the working directory, where nothing exists) *)
-Definition resolve_asis (w : world) (l : loc) : option nat :=
+Definition resolve_asis (w : world) (c : bclass) (l : loc) : option nat :=
   match l with
-  | Here i => if exists_file w i then Some i else None
+  | Here i => if exists_file w c i then Some i else None
   | _ => None
   end.
 
 (* pathlib: this_path.parent / pp  (an absolute pp stays what it is) *)
-Definition resolve_rel (w : world) (l : loc) : option nat :=
+Definition resolve_rel (w : world) (c : bclass) (l : loc) : option nat :=
   match l with
-  | Here i | Rel i => if exists_file w i then Some i else None
+  | Here i | Rel i => if exists_file w c i then Some i else None
   | Nowhere => None
   end.
 
@@ -255,10 +271,10 @@ Section Retrieve.
     match locs with
     | [] => ([], [])
     | l :: rest =>
-        let rb1 := mk_rb i f keys b (resolve_asis w l) in
+        let rb1 := mk_rb i f keys b (resolve_asis w (kclass (b_kind b)) l) in
         if verify w rb1 then ([rb1], [])
         else
-          let rb2 := mk_rb i f keys b (resolve_rel w l) in
+          let rb2 := mk_rb i f keys b (resolve_rel w (kclass (b_kind b)) l) in
           if verify w rb2 then ([rb2], probe rb1)
           else let '(r, p) := file_loop b rest in
                (r, probe rb1 ++ probe rb2 ++ p)
@@ -272,13 +288,16 @@ Section Retrieve.
          | TInternal =>
              match b_locs b with
              | [] => ([], [])
-             | l :: _ => ([mk_rb i f keys b (resolve_asis w l)], [])
+             | l :: _ => ([mk_rb i f keys b
+                                (resolve_asis w (kclass (b_kind b)) l)], [])
              end
          | TFile =>
              if negb (local_allowed fm) then ([], [])
              else file_loop b (b_locs b)
          | TRemote =>
-             (map (fun l => mk_rb i f keys b (resolve_asis w l)) (b_locs b),
+             (map (fun l => mk_rb i f keys b
+                                 (resolve_asis w (kclass (b_kind b)) l))
+                  (b_locs b),
               [])
          end.
 
